@@ -351,6 +351,27 @@ def root (a n : Nat) : Root Poly := ⟨mono a 1, mono a (n - 1), const (1 / (n :
 
 def roots (ns : List Nat) : List (Root Poly) := tab ns.length fun a => root a (ns.getD a 1)
 
+/-! ### output form: like monomials collected, exponents reduced mod the counts
+
+This is what the driver prints and the harness evaluates: entry `k` of `dense ns p` is the
+coefficient of the monomial whose exponent vector has flat index `k` (C order) in the box
+`ns`.  `Lemmas/C11Poly.lean` proves that `Σ_k dense[k] · ζ^(unflat k)` is the value of `p`
+whenever `ζ_a^(n_a) = 1`. -/
+
+/-- exponent vector on `ns.length` axes, reduced mod the counts -/
+def redExp (ns : List Nat) (e : List Nat) : List Nat := tab ns.length fun a => e.getD a 0 % ns.getD a 1
+
+/-- sum of the coefficients of the terms `(flat index, re, im)` whose flat index is `k` -/
+def coefAt (k : Nat) : List (Nat × Rat × Rat) → Rat × Rat
+  | [] => (0, 0)
+  | t :: ts => if t.1 = k then (t.2.1 + (coefAt k ts).1, t.2.2 + (coefAt k ts).2) else coefAt k ts
+
+def denseOf (N : Nat) (ts : List (Nat × Rat × Rat)) : List (Rat × Rat) := tab N fun k => coefAt k ts
+
+/-- dense table of Gaussian-rational coefficients, one per monomial of the box `ns` -/
+def dense (ns : List Nat) (p : Poly) : List (Rat × Rat) :=
+  denseOf (natProd ns) (p.terms.map fun t => (flatC ns (redExp ns t.1), t.2.1, t.2.2))
+
 end Poly
 
 end DFV.C11
